@@ -36,6 +36,12 @@ type scen struct {
 	// RawWS: payload values that contain raw JSON whitespace (line feeds), as marshalers built
 	// on json.Encoder (graphql.MarshalMap / MarshalAny, custom scalars) emit them
 	RawWS bool `json:"raw_whitespace,omitempty"`
+	// CtxCancel: the request context is cancelled by the SERVER side (a timeout middleware's
+	// deadline) at an arbitrary moment while the client stays connected: whatever the
+	// operation still produces must be framed completely
+	CtxCancel bool `json:"server_side_cancel,omitempty"`
+	// Huge: payloads larger than any plausible write buffer (8 KiB strings)
+	Huge bool `json:"huge_payloads,omitempty"`
 	// Paths: incremental payloads carry paths of DEcreasing length (a nested deferred group
 	// that completes before the group enclosing it), the last payload the shortest
 	Paths bool `json:"decreasing_paths,omitempty"`
@@ -68,6 +74,9 @@ func (in *inst) Body() {
 	if in.sc.Disconnect {
 		vrt.AddEnv(&vrt.EnvEvent{Name: "client-disconnect", Enabled: func() bool { return !in.handlerDone }, Fire: func() { in.disconnected = true; cancel() }})
 	}
+	if in.sc.CtxCancel {
+		vrt.AddEnv(&vrt.EnvEvent{Name: "server-side-cancel", Max: 1, Enabled: func() bool { return !in.handlerDone }, Fire: func() { cancel() }})
+	}
 	hs.Sub = func(ctx context.Context, field string, args map[string]any, call int) handschema.SubStep {
 		vrt.Yield("produce")
 		if ctx.Err() != nil || call >= in.sc.Payloads {
@@ -80,6 +89,9 @@ func (in *inst) Body() {
 		if in.sc.RawWS {
 			st.Raw = rawSpecials[call%len(rawSpecials)]
 		}
+		if in.sc.Huge {
+			st.Raw = `"` + strings.Repeat(string(rune('a'+call%26)), 8192) + `"`
+		}
 		return st
 	}
 	if in.sc.Transport == "mixed" {
@@ -90,6 +102,9 @@ func (in *inst) Body() {
 			}
 			if in.sc.RawWS {
 				d = fmt.Sprintf("{\"inc\":%s}", rawSpecials[i%len(rawSpecials)])
+			}
+			if in.sc.Huge {
+				d = fmt.Sprintf("{\"inc\":%q}", strings.Repeat(string(rune('a'+i%26)), 8192))
 			}
 			hs.Incremental = append(hs.Incremental, d)
 			if in.sc.Paths {
@@ -434,7 +449,7 @@ func scenarios(tier string) []*explore.Scenario {
 	var out []*explore.Scenario
 	add := func(s scen) {
 		s2 := s
-		name := fmt.Sprintf("%s q=%s k=%d ka=%v dc=%v sp=%v", s.Transport, s.Query, s.Payloads, s.KeepAlive, s.Disconnect, s.Special) + map[bool]string{true: " rawws", false: ""}[s.RawWS] + map[bool]string{true: " paths", false: ""}[s.Paths]
+		name := fmt.Sprintf("%s q=%s k=%d ka=%v dc=%v sp=%v", s.Transport, s.Query, s.Payloads, s.KeepAlive, s.Disconnect, s.Special) + map[bool]string{true: " rawws", false: ""}[s.RawWS] + map[bool]string{true: " paths", false: ""}[s.Paths] + map[bool]string{true: " huge", false: ""}[s.Huge] + map[bool]string{true: " ctxcancel", false: ""}[s.CtxCancel]
 		if s.Pair {
 			name += " pair"
 		}
@@ -468,6 +483,10 @@ func scenarios(tier string) []*explore.Scenario {
 	add(scen{Transport: "mixed", Query: "{a name}", Payloads: 4, RawWS: true})
 	add(scen{Transport: "sse", Query: "subscription{s2}", Payloads: 3, KeepAlive: true, RawWS: true})
 	add(scen{Transport: "mixed", Query: "{a name}", Payloads: 2, RawWS: true})
+	add(scen{Transport: "sse", Query: "subscription{s2}", Payloads: 2, KeepAlive: true, Huge: true})
+	add(scen{Transport: "mixed", Query: "{a name}", Payloads: 2, Huge: true})
+	add(scen{Transport: "mixed", Query: "{a name}", Payloads: 2, CtxCancel: true})
+	add(scen{Transport: "mixed", Query: "{a name}", Payloads: 1, CtxCancel: true})
 	add(scen{Transport: "mixed", Query: "{a name}", Payloads: 2, Paths: true})
 	add(scen{Transport: "mixed", Query: "{a name}", Payloads: 3, Paths: true})
 	// two streams served concurrently by one server
